@@ -120,7 +120,7 @@ class Ctx:
                            'rule_text': self.rule_text.get(v['rule'], '')}, open(rp, 'w'), indent=1)
                 new.append((k, v, rp))
         for k, v, rp in new:
-            out.append('%s: %s: %s: %s' % (v['loc'], v['rule'], v['instance'], v['detail']))
+            out.append('%s: %s: %s: %s [key=%s]' % (v['loc'], v['rule'], v['instance'], v['detail'], k))
             for step in v['path'][:40]:
                 out.append('    path: %s' % (step,))
             out.append('VIOLATION property=%s replay=%s' % (self.prop, rp))
